@@ -170,13 +170,13 @@ type pending struct { // an acquisition in flight (between acq_call and acq_ret)
 }
 
 type gatedRun struct {
-	sc      scenario
-	rec     *recorder
-	ctl     *sched.Controller
-	api     lockAPI
-	fm      fifo.Map[int]
-	rng     *rand.Rand
-	aborted atomic.Bool
+	sc       scenario
+	rec      *recorder
+	ctl      *sched.Controller
+	api      lockAPI
+	fm       fifo.Map[int]
+	rng      *rand.Rand
+	aborted  atomic.Bool
 	panicked atomic.Bool
 
 	mu       sync.Mutex
@@ -198,8 +198,18 @@ func (r *gatedRun) gOfCur() int {
 	return r.goids[id]
 }
 
+// hook is the body of the packages' verif hooks: the decision point is recorded (hook-level trace, same mutex as
+// the observable events) and then the goroutine parks until the driver lets it go on.
 func (r *gatedRun) hook(point string, kv ...any) {
-	r.ctl.Point(point, append(kv, "g", r.gOfCur())...)
+	g := r.gOfCur()
+	if g != 0 {
+		m := tv.M{"point": point, "g": g}
+		for i := 0; i+1 < len(kv); i += 2 {
+			m[fmt.Sprint(kv[i])] = kv[i+1]
+		}
+		r.rec.ev("hook", m)
+	}
+	r.ctl.Point(point, append(kv, "g", g)...)
 }
 
 // runSection is the body of one client task: acq_call .. rel_ret.
@@ -209,6 +219,7 @@ func (r *gatedRun) runSection(g int, s section) {
 	r.mu.Unlock()
 	if s.Op == "delete" {
 		if a, ok := r.api.(cmapAPI); ok {
+			r.rec.ev("delete", tv.M{"g": g, "key": s.Key})
 			a.m.Delete(s.Key)
 		}
 		return
@@ -436,9 +447,34 @@ func (r *gatedRun) atQuiescence(s sched.Snapshot) error {
 	return nil
 }
 
+// quiesce: sched's quiescence (two identical settled snapshots) confirmed by a second, independent one a little
+// later; on a badly overloaded machine a single detection was seen to be premature once in several thousand runs.
+func (r *gatedRun) quiesce() (sched.Snapshot, error) {
+	for try := 0; ; try++ {
+		s1, err := r.ctl.Quiesce(3 * time.Second)
+		if err != nil {
+			return s1, err
+		}
+		time.Sleep(30 * time.Microsecond)
+		s2, err := r.ctl.Quiesce(3 * time.Second)
+		if err != nil {
+			return s2, err
+		}
+		same := len(s1.G) == len(s2.G)
+		for k, v := range s1.G {
+			if s2.G[k] != v {
+				same = false
+			}
+		}
+		if same || try >= 5 {
+			return s2, nil
+		}
+	}
+}
+
 func (r *gatedRun) drive(clients [][]section, prefix []string, maxSteps int) error {
 	for step := 0; step < maxSteps; step++ {
-		s, err := r.ctl.Quiesce(3 * time.Second)
+		s, err := r.quiesce()
 		if err != nil {
 			return fmt.Errorf("step %d: %w", step, err)
 		}
@@ -539,7 +575,7 @@ func runGated(sc scenario, rec *recorder) (schedule []string, leaked bool, err e
 		}
 	}
 	if err == nil && !r.aborted.Load() && !r.panicked.Load() {
-		if _, qerr := r.ctl.Quiesce(3 * time.Second); qerr != nil {
+		if _, qerr := r.quiesce(); qerr != nil {
 			err = qerr
 		} else {
 			for i, t := range r.tasks {
